@@ -79,6 +79,25 @@ CHECKS = {
    note="Trusted: the instrumenter's maporder/entry rewrites, the document generator and reference description in harness/c19; names are lower-case identifiers.",
    technique="exhaustive enumeration of small input documents x exhaustive exploration of map-iteration orders (environment nondeterminism) of the implementation", design="DESIGN.md §4.1, §7 C19"),
 }
+# additions made after the second round of seeded changes (appended to the texts above)
+ADD = {
+ "C02": (" Schemas with units are additionally raced on first use: two threads unserialize accepted unit strings on one fresh schema under the cooperative scheduler, all schedules with <= 2 preemptions, vector-clock race scan and denoted results.",
+         "exhaustive enumeration of a bounded (schema, value) universe against a reference model (differential, small-scope); first-use paths of unit-bearing schemas by preemption-bounded schedule exploration with race detection"),
+ "C03": (" Every map-based object and one-of is checked twice: built by the constructors, and loaded from its own description through the meta-schema without any constructor (first use of all lazily computed state).", None),
+ "C06": (" Histories include the same run id used twice (concurrently and back to back).", None),
+ "C08": (" Scenarios include server-fatal error messages followed by a later Execute; every read-side scenario also has its fault-free alternative judged.", None),
+ "C09": (" Every scope is also loaded through DescribeScope().Unserialize + ApplySelf, and wrapped as input, output, signal handler and emitter of a one-step plugin that is rebuilt from a real hello message by Client.ReadSchema.", None),
+ "C10": (" Load history: every description rejected in a batch is loaded again twice in the same process after a garbage collection and must be rejected again.",
+         "exhaustive single-fault (mutation) enumeration over every node of bounded schema descriptions, each followed by bounded exhaustive use of the returned schema; repeated-load histories for rejected descriptions"),
+ "C13": (" Step calls: CallStep / CallSignal for run ids r1, r2 from 2-4 threads on one callable schema (first use of a run id raced between step and signal), same race scan, initializer once per run id, handlers see their run's step data.", None),
+ "C14": (" The alphabet of applications includes failing ones (a namespace applied with an empty table; the documented panic is recovered): every reference must be as before.", None),
+ "C16": (" First use: every pair over {ParseInt, FormatShortInt, FormatLongInt, ParseFloat} issued by two threads on one fresh definition under the cooperative scheduler, all schedules with <= 2 preemptions, vector-clock race scan and results equal to a single caller's.",
+         "exhaustive enumeration of a bounded input space (integers, float grids, component strings) against a reference model; first-use paths by preemption-bounded schedule exploration with race detection"),
+}
+for pid, (extra, tech) in ADD.items():
+    CHECKS[pid]["text"] += extra
+    if tech:
+        CHECKS[pid]["technique"] = tech
 NOT_YET = {}
 props = [json.loads(l)["id"] for l in open("/verif/properties.jsonl")]
 checks = []
@@ -108,7 +127,7 @@ m = {
    "add_only": True
  },
  "engines": [
-  {"name": "S", "path": "engine/mcrt + engine/vinstr + engine/mc", "serves_properties": ["C05","C06","C07","C08","C11","C13"], "kind_free_text": "cooperative scheduler + stateless bounded DFS over schedules and environment choices of the instrumented implementation"},
+  {"name": "S", "path": "engine/mcrt + engine/vinstr + engine/mc", "serves_properties": ["C05","C06","C07","C08","C11","C13","C02","C16"], "kind_free_text": "cooperative scheduler + stateless bounded DFS over schedules and environment choices of the instrumented implementation"},
   {"name": "U", "path": "engine/lib + harness/*", "serves_properties": ["C01","C02","C03","C04","C09","C10","C14","C15","C16","C17","C18","C19"], "kind_free_text": "exhaustive small-scope enumeration of schemas x values against a reference interpreter; explicit-state BFS over call histories"},
  ],
  "checks": checks,
